@@ -174,6 +174,23 @@ func InSim() *Sim {
 	return s
 }
 
+// InSimGoroutine is InSim for goroutines of the system only: the driver (the bubble's root
+// goroutine, which releases events and must never park on one) gets nil.
+func InSimGoroutine() *Sim {
+	s := cur.Load()
+	if s == nil {
+		return nil
+	}
+	id := goid()
+	s.mu.Lock()
+	g, ok := s.gs[id]
+	s.mu.Unlock()
+	if !ok || g.Label == "main" {
+		return nil
+	}
+	return s
+}
+
 // OpKey returns a fresh canonical key for an operation of the calling goroutine.
 func (s *Sim) OpKey(class string) string {
 	g := s.G()
